@@ -105,8 +105,55 @@ def run(prog: Program, col: Collector, tier: str, refs: Optional[Refs] = None, c
                 out |= deps_of(c, seen)
         return out
 
+    def slices_of(e):
+        """[(lower, upper)] text bounds for the pieces of `args` that expression e is made of; None = not a pure re-arrangement"""
+        if isinstance(e, ast.Name) and e.id == argv:
+            return [("", "")]
+        if isinstance(e, ast.Subscript) and isinstance(e.value, ast.Name) and e.value.id == argv and isinstance(e.slice, ast.Slice) and e.slice.step is None:
+            return [(norm(e.slice.lower) if e.slice.lower is not None else "", norm(e.slice.upper) if e.slice.upper is not None else "")]
+        if isinstance(e, ast.Tuple) and len(e.elts) == 1:
+            return slices_of(e.elts[0])
+        if isinstance(e, ast.Call) and isinstance(e.func, ast.Name) and e.func.id in ("tuple", "list") and len(e.args) == 1:
+            return slices_of(e.args[0])
+        if isinstance(e, ast.BinOp) and isinstance(e.op, ast.Add):
+            a, b = slices_of(e.left), slices_of(e.right)
+            return None if a is None or b is None else a + b
+        return None
+
+    def covers_all(e, seen=()):
+        """does expression e carry every element of *args?  True / False / None (not understood)"""
+        if isinstance(e, ast.Name) and e.id != argv:
+            defs_ = [n.value for n in walk_no_nested(mi.node) if isinstance(n, ast.Assign) and any(isinstance(t, ast.Name) and t.id == e.id for t in n.targets)]
+            if not defs_ or e.id in seen:
+                return None
+            res = [covers_all(d, tuple(seen) + (e.id,)) for d in defs_]
+            if any(r is False for r in res):
+                return False
+            return True if all(r is True for r in res) else None
+        sl = slices_of(e)
+        if sl is None:
+            return None
+        # the pieces must tile args: first starts at the beginning, each next piece starts where the previous ended, last is open
+        pos = ""
+        for lo, hi in sl:
+            same = lo == pos or (pos and lo.replace(" ", "") in (f"{pos}-len({argv})".replace(" ", ""), f"({pos})-len({argv})".replace(" ", "")))
+            if not same:
+                return False
+            pos = hi
+        return pos == ""
+
     if len(kn) != 1:
         col.violation(f"{mi.fq}::one key", f"the cache is read and written under different keys {sorted(kn)}", mi.loc())
+    # every element of *args reaches make_hash_key on every definition of what is passed (slices must tile args exactly)
+    for c in [n for n in walk_no_nested(mi.node) if isinstance(n, ast.Call) and isinstance(n.func, ast.Attribute) and n.func.attr == mk.name]:
+        for a in c.args:
+            if isinstance(a, ast.Starred):
+                cov = covers_all(a.value)
+                if cov is False:
+                    col.violation(f"{mi.fq}::key covers every element of args", f"`{norm(a.value)}` re-arranges *{argv} into pieces that do not tile it: an argument is left out of the memo key, "
+                                  "so two nodes that differ only there share one entry (a result computed for different arguments is returned)", mi.loc(c))
+                elif cov is None:
+                    col.unresolved(f"{mi.fq}::key covers every element of args", f"`{norm(a.value)}` not understood as a re-arrangement of *{argv}", mi.loc(c))
     for k in keys[:1]:
         d = deps_of(k)
         col.check(clsn in d, f"{mi.fq}::key depends on cls", f"key depends on {sorted(d)}",
